@@ -36,6 +36,7 @@ type HarnessSpec struct {
 	Cases      map[string][][]int64 `json:"cases"`
 	MaxSteps   int64                `json:"max_steps"`
 	Stubs      []string             `json:"stubs"`
+	Unstub     []string             `json:"unstub"` // externals this harness runs as real code
 	Sched      bool                 `json:"sched"`
 	MaxPreempt int                  `json:"max_preempt"`
 	Note       string               `json:"note"`
